@@ -18,6 +18,7 @@ RULE = ('Cases = generated scene (exact_counts 45%, layered, split_candidate, me
 ASSUMPTIONS = ['hit heights in [0, 1e5) ft as the quantifier states',
                'crashes of run() on valid input are C08\'s business: counted under skipped_precondition here']
 BUDGET = {'quick': 1200, 'thorough': 40000}
+CORPUS = 'pipeline'
 COVER_TABLE = ('cells = (okta-class tuple of the layers table with <= 4 rows, classes 0/FEW/SCT/BKN/OVC: 781 tuples) x '
                '(pattern of rows at/above the MSA)')
 ENUM_K = {'quick': 3, 'thorough': 4}
